@@ -132,20 +132,20 @@ func scanDefaults(info *types.Info, fd *ast.FuncDecl) []scanHit {
 			if !ok {
 				continue
 			}
-			cond, ok := fs.Cond.(*ast.BinaryExpr)
-			if !ok || (cond.Op != token.GTR && cond.Op != token.GEQ) {
+			condX, condY, strict, ok := ordCmp(fs.Cond)
+			if !ok {
 				continue
 			}
-			if id, ok := ast.Unparen(cond.X).(*ast.Ident); !ok || info.ObjectOf(id) != info.ObjectOf(iv) {
+			if id, ok := ast.Unparen(condX).(*ast.Ident); !ok || info.ObjectOf(id) != info.ObjectOf(iv) {
 				continue
 			}
-			low, ok := intConst(cond.Y)
+			low, ok := intConst(condY)
 			if !ok {
 				continue
 			}
 			// the first position the loop does not test
 			skipped := low
-			if cond.Op == token.GEQ {
+			if !strict {
 				skipped = low - 1
 			}
 			// body: a single if whose body is `return f(i)` with f(i) = i, i+k or i-k
